@@ -489,6 +489,23 @@ fn check_flattened<T: Elem>(ctx: &mut Ctx, what: &str, ids: &[u64], got_ids: Vec
     }
 }
 
+/// correspondence lines of one `into_flattened` (sized elements): the vector of arrays is announced as its
+/// buffer of `T`-sized slots, the operation carries the array counts, the answer is what the result reports
+fn flatten_lines<T: Elem>(ctx: &mut Ctx, kind: &str, ids: &[u64], arr_cap: usize, got_ids: &[u64], got_len: usize, got_cap: usize) {
+    if T::ZST {
+        return;
+    }
+    let _ = writeln!(ctx.out, "# trace {} into_flattened kind={kind} arrays={} cap={arr_cap}", ctx.trace_no, ids.len() / 2);
+    ctx.trace_no += 1;
+    let _ = writeln!(ctx.out, "new f {kind} cap={} ids={}", arr_cap * 2, csv(ids));
+    let _ = writeln!(
+        ctx.out,
+        "op into_flattened f n=2 arrlen={} arrcap={arr_cap} o=- bombs=- capin=0 => ids={} len={got_len} cap={got_cap} drops=- esc=- exit=ret used=0",
+        ids.len() / 2,
+        csv(got_ids)
+    );
+}
+
 fn pairs<T: Elem>(ids: &[u64]) -> Vec<[T; 2]> {
     ids.chunks(2).map(|c| [T::make(c[0]), T::make(c[1])]).collect()
 }
@@ -507,6 +524,7 @@ macro_rules! flatten_with_settings {
                         let b: BumpBox<[[T; 2]]> = bump.alloc_iter_exact(pairs::<T>(&ids));
                         let f = b.into_flattened();
                         check_flattened::<T>(ctx, "box", &ids, VecDyn::ids(&f), f.len(), None);
+                        flatten_lines::<T>(ctx, "box", &ids, n, &VecDyn::ids(&f), f.len(), f.len());
                     }
                     {
                         let mut v: FixedBumpVec<[T; 2]> = FixedBumpVec::with_capacity_in(n + spare, &bump);
@@ -516,6 +534,7 @@ macro_rules! flatten_with_settings {
                         let cap = v.capacity();
                         let f = v.into_flattened();
                         check_flattened::<T>(ctx, "fixed", &ids, VecDyn::ids(&f), VecDyn::len(&f), Some((cap, f.capacity())));
+                        flatten_lines::<T>(ctx, "fixed", &ids, cap, &VecDyn::ids(&f), VecDyn::len(&f), f.capacity());
                     }
                     {
                         let mut v: BumpVec<[T; 2], &Bump<Global, $S>> = BumpVec::with_capacity_in(n + spare, &bump);
@@ -525,6 +544,7 @@ macro_rules! flatten_with_settings {
                         let cap = v.capacity();
                         let mut f = v.into_flattened();
                         check_flattened::<T>(ctx, "bump", &ids, VecDyn::ids(&f), VecDyn::len(&f), Some((cap, f.capacity())));
+                        flatten_lines::<T>(ctx, "bump", &ids, cap, &VecDyn::ids(&f), VecDyn::len(&f), f.capacity());
                         // the flattened vector keeps working: grow it, then drop
                         f.push(T::make(1000));
                         f.push(T::make(1001));
@@ -537,6 +557,7 @@ macro_rules! flatten_with_settings {
                         let cap = v.capacity();
                         let f = v.into_flattened();
                         check_flattened::<T>(ctx, "mut", &ids, VecDyn::ids(&f), VecDyn::len(&f), Some((cap, f.capacity())));
+                        flatten_lines::<T>(ctx, "mut", &ids, cap, &VecDyn::ids(&f), VecDyn::len(&f), f.capacity());
                     }
                     {
                         let mut v: MutBumpVecRev<[T; 2], &mut Bump<Global, $S>> = MutBumpVecRev::with_capacity_in(n + spare, &mut bump);
@@ -546,6 +567,7 @@ macro_rules! flatten_with_settings {
                         let cap = v.capacity();
                         let f = v.into_flattened();
                         check_flattened::<T>(ctx, "rev", &ids, VecDyn::ids(&f), VecDyn::len(&f), Some((cap, f.capacity())));
+                        flatten_lines::<T>(ctx, "rev", &ids, cap, &VecDyn::ids(&f), VecDyn::len(&f), f.capacity());
                     }
                     // five owners held every id once (+ the two extra pushes): each destructor ran exactly once
                     ctx.oracle_checks += 1;
